@@ -90,6 +90,15 @@ def shape(fn: ast.AST) -> Tuple[str, List[str]]:
     # docstrings and type comments do not matter
     if f2.body and isinstance(f2.body[0], ast.Expr) and isinstance(f2.body[0].value, ast.Constant) and isinstance(f2.body[0].value.value, str):
         f2.body = f2.body[1:] or [ast.Pass()]
+    # message texts do not matter for the correspondence of locals: f-strings and string constants are abstracted
+    class _NoStr(ast.NodeTransformer):
+        def visit_JoinedStr(self, node):
+            return ast.copy_location(ast.Constant("S"), node)
+
+        def visit_Constant(self, node):
+            return ast.copy_location(ast.Constant("S"), node) if isinstance(node.value, str) else node
+
+    f2 = _NoStr().visit(f2)
     h = hashlib.sha256(ast.dump(f2, annotate_fields=False).encode()).hexdigest()[:24]
     return h, names
 
